@@ -117,6 +117,19 @@ func BuildGraph(w *World) *Graph {
 				// lexical edges: closures and function values
 				if mc, ok := in.(*ssa.MakeClosure); ok {
 					addEdge(fn, mc.Fn.(*ssa.Function), in, "closure")
+					// a method value (`x.step`) is a synthetic bound-method closure: the code that
+					// runs is the method itself, lexically attributed to the function taking it
+					if bf := mc.Fn.(*ssa.Function); bf.Synthetic != "" && bf.Parent() == nil {
+						for _, bb := range bf.Blocks {
+							for _, bin := range bb.Instrs {
+								if bc, ok := bin.(ssa.CallInstruction); ok {
+									if m := bc.Common().StaticCallee(); m != nil && inSet[m] {
+										addEdge(fn, m, in, "closure")
+									}
+								}
+							}
+						}
+					}
 					if w.InLib(fn) {
 						g.checkEscape(fn, mc)
 					}
